@@ -28,6 +28,17 @@
 #include <stdarg.h>
 #include <sys/eventfd.h>
 #include "baton_sched.h"
+#if defined(__has_feature)
+# if __has_feature(address_sanitizer)
+#  include <sanitizer/asan_interface.h>
+#  define POISON(p, n) __asan_poison_memory_region((p), (n))
+#  define UNPOISON(p, n) __asan_unpoison_memory_region((p), (n))
+# endif
+#endif
+#ifndef POISON
+# define POISON(p, n) ((void) 0)
+# define UNPOISON(p, n) ((void) 0)
+#endif
 
 enum { K_WAIT = 1, K_BEGIN, K_LOADX, K_LOAD, K_STORE, K_XCHG, K_FADD, K_READ, K_WRITE, K_INCB };
 enum { CMD_STEP = 0, CMD_CLOSE = 1, CMD_CLOSECB = 2 };   /* CMD_CLOSE + 16*h */
@@ -91,6 +102,11 @@ static int sched_atomic(int kind, _Atomic int* p, int v) {
   if (sched_unwinding) {                 /* end of run: leave quickly, touch nothing */
     switch (kind) { case K_LOADX: return 1; case K_XCHG: return v; default: return 0; }
   }
+  {
+    int h0 = handle_of((void*) p);         /* monitor bookkeeping: a sender operation that turns pending 0 -> non-zero is an effective send */
+    if (sched_self > 0 && is_pending((void*) p) && (kind == K_XCHG || kind == K_STORE) && v != 0 &&
+        __c11_atomic_load(p, __ATOMIC_SEQ_CST) == 0) eff[h0]++;
+  }
   switch (kind) {
     case K_LOADX: case K_LOAD: r = __c11_atomic_load(p, __ATOMIC_SEQ_CST); break;
     case K_STORE: __c11_atomic_store(p, v, __ATOMIC_SEQ_CST); break;
@@ -102,7 +118,7 @@ static int sched_atomic(int kind, _Atomic int* p, int v) {
     if ((kind == K_LOADX || kind == K_LOAD) && is_pending(p)) eff_add("load=%d", r);
     else if (kind == K_FADD && is_busy(p) && v == 1) eff_add("inc");
     else if (kind == K_FADD && is_busy(p) && v == -1) eff_add("dec");
-    else if (kind == K_XCHG && is_pending(p) && v == 1) { eff_add("xchg=%d", r); if (r == 0) eff[S[t].h]++; }
+    else if (kind == K_XCHG && is_pending(p) && v == 1) eff_add("xchg=%d", r);
     else eff_add("op%d:%d=%d", kind, v, r);
   } else if (sched_self == 0) {
     int h = handle_of(p);
@@ -172,7 +188,10 @@ static int inflight(int h) {
 static void close_cb(uv_handle_t* handle) {
   int h = (int) (long) handle->data;
   freed[h] = 1;
-  if (cleanup_mode || free_in_cb || inflight(h) == 0) { released[h] = 1; free(handle); }
+  if (cleanup_mode || inflight(h) == 0) { released[h] = 1; free(handle); }
+  else if (free_in_cb) {                 /* released while a send is in flight: poisoned now (ASan flags any access), handed to free() after the run */
+    released[h] = 2; POISON(handle, sizeof(uv_async_t));
+  }
 }
 
 static void do_close(int h) {
@@ -416,6 +435,7 @@ static void start_run(void) {
 
 static void end_run(void) {
   int h;
+  for (h = 0; h < nh; h++) if (released[h] == 2) { UNPOISON(H[h], sizeof(uv_async_t)); released[h] = 0; }
   sched_unwind_all();
   /* tear-down on the controller's stack, unscheduled: close what is still open; close_cb frees */
   cleanup_mode = 1;
